@@ -28,6 +28,14 @@ fn main() {
     if args.is_empty() {
         usage();
     }
+    if args[0] == "--worker" {
+        // worker sub-process: vcheck --worker C04 <family> <start> <end> <tier>
+        let code = match args.get(1).map(|s| s.as_str()) {
+            Some("C04") => checks::c04::worker(&args[2..]),
+            _ => 2,
+        };
+        std::process::exit(code);
+    }
     let id = args[0].to_uppercase();
     let mut tier = match std::env::var("VERIF_TIER").as_deref() {
         Ok("thorough") => Tier::Thorough,
@@ -81,6 +89,7 @@ fn main() {
             "C01" => checks::c01::replay(&case),
             "C02" => checks::c02::replay(&case),
             "C03" => checks::c03::replay(&case),
+            "C04" => checks::c04::replay(&case),
             "C05" => checks::c05::replay(&case),
             "C06" => checks::c06::replay(&case),
             "C07" => checks::c07::replay(&case),
@@ -115,6 +124,7 @@ fn main() {
         "C01" => checks::c01::run(&mut ctx),
         "C02" => checks::c02::run(&mut ctx),
         "C03" => checks::c03::run(&mut ctx),
+        "C04" => checks::c04::run(&mut ctx),
         "C05" => checks::c05::run(&mut ctx),
         "C06" => checks::c06::run(&mut ctx),
         "C07" => checks::c07::run(&mut ctx),
